@@ -183,6 +183,11 @@ class SimRef(object):
         self.reverse = reverse      # True: reference travels server->client direction of the conn
         self.generation = conn.generation
         self.version = None
+        net.refseq = getattr(net, "refseq", 0) + 1
+        self._hid = net.refseq          # creation order, not address: sets of references iterate reproducibly
+
+    def __hash__(self):
+        return self._hid * 7919 + 13
 
     def __repr__(self):
         return "<SimRef %s->%s %s>" % (self.caller, self.callee, type(self.target).__name__)
